@@ -11,6 +11,8 @@ import time
 from pyvc import driver, extract, tables as tables_mod
 
 VERIF = driver.VERIF
+# trial runs against scratch copies write their evidence elsewhere (tools/try_scratch.sh); registered commands never set this
+EVIDENCE_DIR = os.environ.get("VERIF_EVIDENCE_DIR") or os.path.join(VERIF, "evidence")
 
 TRUSTED_COMMON = [
     "engine: pyvc symbolic executor over the AST of /repo's working tree (flat-map loop summarisation rule, exception edges, contract substitution at calls) - not itself verified; cross-checked against CPython by replaying counter-models and by the directed search",
@@ -65,7 +67,7 @@ def slug(s):
 
 
 def write_replay(pid, ob_name, payload):
-    d = os.path.join(VERIF, "evidence", "replay")
+    d = os.path.join(EVIDENCE_DIR, "replay")
     os.makedirs(d, exist_ok=True)
     fn = os.path.join(d, "%s-%s.json" % (pid, slug(ob_name)))
     with open(fn, "w") as f:
@@ -194,8 +196,8 @@ def run_check(spec, tier="quick", root="/repo", seed=0):
     }
     ev = {"property_id": pid, "tier": tier, "seed": int(seed), "level": level, "coverage": cov,
           "assumptions": list(spec.assumptions), "wall_s": round(wall, 2), "violations": len(report["violations"])}
-    os.makedirs(os.path.join(VERIF, "evidence"), exist_ok=True)
-    with open(os.path.join(VERIF, "evidence", "%s.json" % pid), "w") as f:
+    os.makedirs(EVIDENCE_DIR, exist_ok=True)
+    with open(os.path.join(EVIDENCE_DIR, "%s.json" % pid), "w") as f:
         json.dump(ev, f, indent=1, default=str)
     print("%s: %d obligations, %d discharged, %d violations, %d undecided, %d known findings, %.1fs"
           % (pid, len(obl), discharged, len(report["violations"]), len(report["undecided"]), len(report["known"]), wall))
